@@ -270,7 +270,10 @@ func c06() {
 			if shared[u.Name+string(u.Regime)] {
 				continue
 			}
-			if !run.Thorough() && i%6 != pi {
+			// quick tier: every sixth universe per role map, but the storylines in which the recipient of a payout
+			// is not the party the wallet would guess from ownership are always kept
+			always := strings.Contains(u.Name, "tax-sf") || strings.Contains(u.Name, "renew-redirect")
+			if !run.Thorough() && i%6 != pi && !(always && strings.Contains(u.Name, "/f"+fmt.Sprint(3)+"/shifted")) {
 				continue
 			}
 			u.Name = fmt.Sprintf("%s/wallet-as-roles%v", u.Name, rolesOf(p, 0))
